@@ -13,15 +13,15 @@ import (
 )
 
 func determineCommonPrefix(prefix, key, delimiter string) *string {
-	prefixSegments := strings.Split(prefix, delimiter)
-	keySegments := strings.Split(key, delimiter)
-	if len(prefixSegments) >= len(keySegments) {
+	// The delimiter is searched in the part of the key that follows the prefix;
+	// splitting prefix and key independently miscounts when the delimiter
+	// straddles the end of the prefix (prefix "a/", delimiter "//", key "a//b").
+	rest := strings.TrimPrefix(key, prefix)
+	idx := strings.Index(rest, delimiter)
+	if idx < 0 {
 		return nil
 	}
-	commonPrefix := ""
-	for idx := range prefixSegments {
-		commonPrefix += keySegments[idx] + delimiter
-	}
+	commonPrefix := prefix + rest[:idx+len(delimiter)]
 	return &commonPrefix
 }
 
